@@ -21,7 +21,7 @@ SIM = os.path.join(VERIF, "sim")
 BUILD = os.path.join(VERIF, "build")
 
 TUS = ["core", "common", "ops_basic", "ops_spline", "ops_arith", "ops_apply",
-       "ops_forms", "ops_gen", "plan", "run", "main"]
+       "ops_forms", "ops_gen", "ops_shared", "plan", "run", "main"]
 
 GUARD_WRAP = ("-Wl,--wrap=__cxa_guard_acquire,--wrap=__cxa_guard_release,--wrap=__cxa_guard_abort,"
               "--wrap=pthread_mutex_lock,--wrap=pthread_mutex_trylock,--wrap=pthread_mutex_unlock,--wrap=pthread_once,"
